@@ -36,10 +36,10 @@ MANIFEST = dict(
           "C17_operand_spelling / C17_hierarchy: the look-ups of the symbol table, the scoping model (identifier, enclosing "
           "class, qualifying class, `uses` entities, every name of a dotted operand -- the exact-spelling comparison "
           "for_class_or_module is proved harmless), the completion listing, the class index and the class forest (class and "
-          "parent names re-cased) do not depend on letter case. PARTIAL at this layer: invariance is proved for the spelling of "
-          "the QUERY inside one abstract workspace and for the forest under re-cased names; that the scoping model's answers "
-          "are also unchanged when the type references stored inside the workspace are re-cased (eval types carry the "
-          "spelling as written) is covered by the metamorphic run only. Tie: generated "
+          "parent names re-cased) do not depend on letter case. Invariance under re-casing of the QUERY is proved here; invariance "
+          "under re-casing of the references STORED in the workspace (parent names, uses lists, declared type names) is "
+          "Properties/C10.v C10_workspace_recase / C10_workspace_recase_answers and C11.v C11_workspace_recase (all workspaces, no "
+          "well-formedness hypothesis). Tie: generated "
           "workspaces (2..6 classes + modules, inheritance, uses, members, methods with parameters / locals, bodies with "
           "assignments, calls, dotted chains, dangling dots, if / for / while / loop / repeat / switch blocks, `inherited self.X`, "
           "`Purge(x)`, tVarByteArray locals, `pass`, return) and single-file programs of the full grammar (types, records, OQL) x "
